@@ -34,5 +34,5 @@ Definition show_state (fs : list (list N * gfile)) (s : st) (main : list N) (que
   ++ "|F:" ++ show_bool (safe fs s)
   ++ "|Q:" ++ sjoin ";" (map (fun q => show_str q ++ ">" ++ show_ocls (lookup s main q)) queries).
 
-Definition run_case (fs : list (list N * gfile)) (main : list N) (queries : list (list N)) : string :=
-  show_state fs (load_main fs main) main queries.
+Definition run_case (langs : list (list N * list (list N))) (fs : list (list N * gfile)) (main : list N) (queries : list (list N)) : string :=
+  show_state fs (load_main_with langs fs main) main queries.
